@@ -359,7 +359,44 @@ class _SwapIndependentNeighbours(ast.NodeTransformer):
         return node
 
 
+class _MirrorSomeComparisons(ast.NodeTransformer):
+    """`a < b` -> `b > a`, `a == b` -> `b == a`, `m1 & m2` -> `m2 & m1` (masks) on a random 30 % of the single-operator comparisons whose
+    operands are free of calls with side effects (same purity test as above)."""
+    SHARE = 0.3
+    MIRROR = {ast.Lt: ast.Gt, ast.Gt: ast.Lt, ast.LtE: ast.GtE, ast.GtE: ast.LtE, ast.Eq: ast.Eq, ast.NotEq: ast.NotEq}
+
+    def __init__(self, seed=7):
+        import random
+        self.rnd = random.Random(seed)
+
+    @staticmethod
+    def _pure(e):
+        for x in ast.walk(e):
+            if isinstance(x, ast.Call):
+                f = x.func
+                if not (isinstance(f, ast.Attribute) and isinstance(f.value, ast.Name) and f.value.id in ("np", "pd", "sp")
+                        or isinstance(f, ast.Name) and f.id in ("len", "int", "float", "max", "min", "abs", "range", "list", "tuple", "isinstance", "type")):
+                    return False
+            if isinstance(x, (ast.Lambda, ast.ListComp, ast.GeneratorExp, ast.DictComp, ast.SetComp, ast.NamedExpr, ast.Yield, ast.Await)):
+                return False
+        return True
+
+    def visit_Compare(self, node):
+        self.generic_visit(node)
+        if len(node.ops) == 1 and type(node.ops[0]) in self.MIRROR and self._pure(node) and self.rnd.random() < self.SHARE:
+            return ast.Compare(left=node.comparators[0], ops=[self.MIRROR[type(node.ops[0])]()], comparators=[node.left])
+        return node
+
+    def visit_BinOp(self, node):
+        self.generic_visit(node)
+        if isinstance(node.op, (ast.BitAnd, ast.BitOr)) and isinstance(node.left, ast.Compare) and isinstance(node.right, ast.Compare) \
+                and self._pure(node) and self.rnd.random() < self.SHARE:
+            node.left, node.right = node.right, node.left
+        return node
+
+
 TWINS = {
+    "mirror-comparisons-30pct": _MirrorSomeComparisons,
     "swap-independent-neighbours-30pct": _SwapIndependentNeighbours,
     "unparse-roundtrip": None,
     "rename-locals": _RenameLocals,
